@@ -1,6 +1,7 @@
 //! tvharness: runs the real tsrun code on case lines and prints canonical observations.
 use std::io::{self, BufRead, Write};
 
+mod heap;
 mod path;
 
 fn main() {
@@ -11,6 +12,7 @@ fn main() {
     let mut out = io::BufWriter::new(stdout.lock());
     let f: fn(&str) -> String = match model {
         "path" => path::line,
+        "heap" => heap::line,
         _ => {
             eprintln!("usage: tvharness <model>");
             std::process::exit(2);
